@@ -133,6 +133,7 @@ def run(eng, rep):
     rep.explain("C12 (two structural clauses): every return of trsbox (Python path) and alt_trust_step delivers a step that is the result of d_within_bounds "
                 "(reaching definitions on each return, T2), d_within_bounds is clamp(xopt+d) + pinning + (- xopt); every loop of the sub-problem routines is a "
                 "`for` over a range whose bound is fixed before the loop, and the routines are not recursive (totality).")
+    rep.explain('Also decided: the lower- and upper-bound blocks of trsbox / alt_trust_step / d_within_bounds are reflections of each other (T14, C12-3).')
     rep.not_decided += ["||d|| <= delta(1+1e-8), model decrease, Cauchy decrease, gnew = g + H d (numerical)", "the optional Fortran back end (outside the analysed source)"]
     rule_final_clipping(eng, rep)
     rule_totality(eng, rep)
